@@ -308,8 +308,27 @@ def _getter(run, p, E, f: Func, cls):
         iso = [n for n in walk_no_nested(f.node) if isinstance(n, ast.If) and any(
             isinstance(x, ast.Call) and _is_name(x.func, 'isinstance') and len(x.args) == 2 and _is_name(x.args[1], 'list')
             for x in walk_self(n.test))]
-        if not iso:
+        def _isinst_list(x):
+            return isinstance(x, ast.Call) and _is_name(x.func, 'isinstance') and len(x.args) == 2 and _is_name(x.args[1], 'list')
+
+        iso_exp = [n for n in walk_no_nested(f.node) if isinstance(n, ast.IfExp) and any(_isinst_list(x) for x in walk_self(n.test))]
+        if not iso and not iso_exp:
             raise UnknownIdiom('%s: no isinstance(<value>, list) case split' % f.qual)
+        for node in iso_exp:
+            # `<v>[-1] if isinstance(<v>, list) else <v>` (either polarity): the same split as an expression
+            call = [x for x in walk_self(node.test) if _isinst_list(x)][0]
+            var = call.args[0]
+            if not isinstance(var, ast.Name):
+                raise UnknownIdiom('%s: isinstance on %s' % (f.qual, short(var)))
+            islist = implied(node.test, True, lambda e: e is call)
+            if islist is None:
+                raise UnknownIdiom('%s: list case split %s not understood' % (f.qual, short(node.test)))
+            arm_list, arm_one = (node.body, node.orelse) if islist else (node.orelse, node.body)
+            if not (isinstance(arm_list, ast.Subscript) and _is_name(arm_list.value, var.id) and not isinstance(arm_list.slice, ast.Slice)
+                    and (_is_name(arm_one, var.id) or (isinstance(arm_one, ast.List) and len(arm_one.elts) == 1 and _is_name(arm_one.elts[0], var.id)))):
+                raise UnknownIdiom('%s: list case split %s not understood' % (f.qual, short(node, 80)))
+            run.check(short(arm_list.slice) == '-1', '%s: of a repeated parameter the LAST occurrence is converted' % tag, f, node,
+                      runtime_witness='?x=1&x=2 read as 1')
         for node in iso:
             call = [x for x in walk_self(node.test) if isinstance(x, ast.Call) and _is_name(x.func, 'isinstance')][0]
             var = call.args[0]
@@ -356,6 +375,13 @@ def _getter(run, p, E, f: Func, cls):
                   where=f.loc(h), runtime_witness='an unparsable value silently read as the default / reported with another error')
 
     # ---- (c) store discipline
+    _rd_cache = []
+
+    def _rd():
+        if not _rd_cache:
+            _rd_cache.append(ReachingDefs(cfg))
+        return _rd_cache[0]
+
     def store_known_set(nid) -> Optional[bool]:
         for test, truth in branch_facts(cfg, nid):
             r = _none_fact(test, truth, 'store')
@@ -390,10 +416,21 @@ def _getter(run, p, E, f: Func, cls):
                   witness=['%s:%s %s' % (f.file, n.lineno, n.text()) for n in later_fail[:3]],
                   runtime_witness='store receives a value although the getter then raises HTTPInvalidParam')
         ret_after = [cfg.node(i) for i in after if cfg.node(i).kind == 'stmt' and isinstance(cfg.node(i).ast, ast.Return)]
-        run.check(bool(ret_after) and all(short(r.ast.value) == short(sn.ast.value) for r in ret_after),
-                  '%s: what is stored is what is returned' % tag, f, sn.ast,
-                  witness=['returns %s' % short(r.ast.value) for r in ret_after],
-                  runtime_witness='store[name] differs from the returned value (e.g. the unconverted string)')
+        # the same expression AND the same value: no name of it is re-bound between the store and the return
+        rebound = []
+        for r in ret_after:
+            if r.ast.value is None or short(r.ast.value) != short(sn.ast.value):
+                continue
+            for nm in sorted({x.id for x in walk_self(sn.ast.value) if isinstance(x, ast.Name)}):
+                if [id(d) for d in _rd().at(sn.id, nm)] != [id(d) for d in _rd().at(r.id, nm)]:
+                    rebound.append('`%s` is re-bound between the store and `%s` (%s)' % (nm, short(r.ast, 60), '; '.join(
+                        sorted({short(d.stmt, 60) if getattr(d, 'stmt', None) is not None else nm for d in _rd().at(r.id, nm)
+                                if id(d) not in [id(x) for x in _rd().at(sn.id, nm)]}))))
+        run.check(bool(ret_after) and all(r.ast.value is not None and short(r.ast.value) == short(sn.ast.value) for r in ret_after) and not rebound,
+                  '%s: what is stored is what is returned (the same expression over the same bindings)' % tag, f, sn.ast,
+                  witness=['returns %s' % short(r.ast.value) for r in ret_after] + rebound,
+                  runtime_witness='store[name] differs from the returned value (the unconverted string; for ?id=1&id=2 the whole list '
+                                  "['1', '2'] while '2' is returned)")
     for rn in success:
         ok = False
         for sn in stores:
@@ -1604,6 +1641,211 @@ def r15_undecoded_shortcut(run):
     run.sample({'decoder-sensitive characters': chars, 'fast-path flags': {k_: short(v_, 100) for k_, v_ in flags.items()}})
 
 
+# ---------------------------------------------------------------------------
+# R16 presence is decided by the key, never by the stored value
+# ---------------------------------------------------------------------------
+
+class _PKeyError(Exception):
+    pass
+
+
+_PKEY = 'k'
+# cell of (presence x class of the stored value) -> the mapping the predicate is evaluated on.  The parser stores a str
+# (possibly '' with keep_blank_qs_values) or a non-empty list of str, never None.
+_PRESENCE_CELLS = (
+    ('absent', {}, False),
+    ('absent, other parameters present', {'other': 'v'}, False),
+    ('present with a blank value (?k= or ?k)', {_PKEY: ''}, True),
+    ('present with a value', {_PKEY: 'v'}, True),
+    ("present with the value '0'", {_PKEY: '0'}, True),
+    ('present several times, all blank (?k&k)', {_PKEY: ['', '']}, True),
+)
+
+
+def _presence_eval(f: Func, e, env):
+    """Evaluates a presence predicate over one cell: the parameter table is
+    a concrete dict, the looked-up name the key _PKEY.  Understands membership
+    tests, .get(), subscripts (KeyError when absent), bool/len/isinstance,
+    not/and/or, is/==, conditional expressions; anything else is UNK."""
+    def ev(x):
+        return _presence_eval(f, x, env)
+
+    if (table_of(f, e) or ('', ''))[0] == 'params':
+        return env['$table']
+    if isinstance(e, ast.Constant):
+        return e.value
+    if isinstance(e, ast.Name):
+        return env.get(e.id, UNK)
+    if isinstance(e, ast.UnaryOp) and isinstance(e.op, ast.Not):
+        v = ev(e.operand)
+        return UNK if v is UNK else (not v)
+    if isinstance(e, ast.BoolOp):
+        last = UNK
+        for sub in e.values:
+            last = ev(sub)
+            if last is UNK:
+                return UNK
+            if isinstance(e.op, ast.And) and not last:
+                return last
+            if isinstance(e.op, ast.Or) and last:
+                return last
+        return last
+    if isinstance(e, ast.IfExp):
+        t = ev(e.test)
+        return UNK if t is UNK else ev(e.body if t else e.orelse)
+    if isinstance(e, ast.Compare) and len(e.ops) == 1:
+        a, b = ev(e.left), ev(e.comparators[0])
+        if a is UNK or b is UNK:
+            return UNK
+        op = e.ops[0]
+        try:
+            if isinstance(op, ast.In):
+                return a in b
+            if isinstance(op, ast.NotIn):
+                return a not in b
+            if isinstance(op, ast.Is):
+                return a is b
+            if isinstance(op, ast.IsNot):
+                return a is not b
+            if isinstance(op, ast.Eq):
+                return a == b
+            if isinstance(op, ast.NotEq):
+                return a != b
+            if isinstance(op, (ast.Gt, ast.GtE, ast.Lt, ast.LtE)) and type(a) is int and type(b) is int:
+                return {ast.Gt: a > b, ast.GtE: a >= b, ast.Lt: a < b, ast.LtE: a <= b}[type(op)]
+        except TypeError:
+            return UNK
+        return UNK
+    if isinstance(e, ast.Subscript) and not isinstance(e.slice, ast.Slice):
+        c, i = ev(e.value), ev(e.slice)
+        if c is UNK or i is UNK:
+            return UNK
+        if isinstance(c, dict):
+            if i not in c:
+                raise _PKeyError()
+            return c[i]
+        return UNK
+    if isinstance(e, ast.Call) and not e.keywords and not any(isinstance(a, ast.Starred) for a in e.args):
+        if isinstance(e.func, ast.Attribute):
+            recv = ev(e.func.value)
+            args = [ev(a) for a in e.args]
+            if recv is UNK or any(a is UNK for a in args):
+                return UNK
+            if isinstance(recv, dict):
+                if e.func.attr == 'get' and len(args) in (1, 2):
+                    return recv.get(*args)
+                if e.func.attr == '__contains__' and len(args) == 1:
+                    return args[0] in recv
+                if e.func.attr == 'keys' and not args:
+                    return list(recv)
+            return UNK
+        if isinstance(e.func, ast.Name) and e.func.id not in env:
+            args = [ev(a) for a in e.args]
+            if e.func.id == 'isinstance' and len(e.args) == 2 and args[0] is not UNK:
+                ts = e.args[1].elts if isinstance(e.args[1], ast.Tuple) else [e.args[1]]
+                if all(isinstance(t, ast.Name) and t.id in _TYPE_NAMES for t in ts):
+                    return isinstance(args[0], tuple(_TYPE_NAMES[t.id] for t in ts))
+                return UNK
+            if any(a is UNK for a in args):
+                return UNK
+            if e.func.id == 'bool' and len(args) == 1:
+                return bool(args[0])
+            if e.func.id == 'len' and len(args) == 1 and isinstance(args[0], (str, list, dict, tuple)):
+                return len(args[0])
+    return UNK
+
+
+def _presence_run(f: Func, stmts, env):
+    """('return', value) | ('fall', None); raises _PKeyError / UnknownIdiom."""
+    for s in stmts:
+        if isinstance(s, ast.Expr) and isinstance(s.value, ast.Constant):
+            continue
+        if isinstance(s, ast.Pass):
+            continue
+        if isinstance(s, ast.Expr):
+            if _presence_eval(f, s.value, env) is UNK:     # evaluated for its KeyError
+                raise UnknownIdiom('%s: statement %s in a presence predicate' % (f.qual, short(s, 60)))
+            continue
+        if isinstance(s, ast.Return):
+            v = _presence_eval(f, s.value, env) if s.value is not None else None
+            if v is UNK:
+                raise UnknownIdiom('%s: cannot evaluate `%s` on a cell of presence x stored value' % (f.qual, short(s, 80)))
+            return ('return', v)
+        if isinstance(s, (ast.Assign, ast.AnnAssign)) and getattr(s, 'value', None) is not None:
+            tgts = s.targets if isinstance(s, ast.Assign) else [s.target]
+            if not all(isinstance(t, ast.Name) for t in tgts):
+                raise UnknownIdiom('%s: statement %s in a presence predicate' % (f.qual, short(s, 60)))
+            v = _presence_eval(f, s.value, env)
+            for t in tgts:
+                env[t.id] = v
+            continue
+        if isinstance(s, ast.If):
+            t = _presence_eval(f, s.test, env)
+            if t is UNK:
+                raise UnknownIdiom('%s: cannot evaluate the test `%s` on a cell of presence x stored value' % (f.qual, short(s.test, 80)))
+            r = _presence_run(f, s.body if t else s.orelse, env)
+            if r[0] == 'return':
+                return r
+            continue
+        if isinstance(s, ast.Try) and not s.finalbody:
+            try:
+                r = _presence_run(f, s.body, env)
+                if r[0] == 'fall' and s.orelse:
+                    r = _presence_run(f, s.orelse, env)
+            except _PKeyError:
+                for h in s.handlers:
+                    names = [] if h.type is None else [short(x) for x in (h.type.elts if isinstance(h.type, ast.Tuple) else [h.type])]
+                    if h.type is None or any(n in ('KeyError', 'LookupError', 'Exception') for n in names):
+                        r = _presence_run(f, h.body, env)
+                        break
+                else:
+                    raise
+            if r[0] == 'return':
+                return r
+            continue
+        raise UnknownIdiom('%s: statement %s in a presence predicate' % (f.qual, short(s, 60)))
+    return ('fall', None)
+
+
+def r16_presence_by_key(run):
+    """"Is the parameter there?" is a question about the KEY: has_param(name)
+    is true iff name is a key of the parsed mapping, whatever value is stored
+    under it (a blank value kept by keep_blank_qs_values, '0', a list of
+    blanks).  has_param is evaluated on the cells of presence x stored-value
+    class.  (The getters' own found-decision is R3(d): a value is returned
+    only under `name in params`, the default only under its negation.)
+    W: has_param = bool(self._params.get(name)): ?flag -> params == {'flag':
+    ''}, get_param('flag') == '' but has_param('flag') is False."""
+    p = run.project
+    done = set()
+    for rq in (WSGI_REQ, ASGI_REQ):
+        m = effective_members(p, rq).get('has_param')
+        if m is None or m.func is None:
+            raise AnchorError('%s.has_param not found' % rq)
+        f = m.func
+        if f.qual in done:
+            continue
+        done.add(f.qual)
+        run.use(f)
+        params = f.params()
+        if len(params) != 2:
+            raise UnknownIdiom('%s: signature %s' % (f.qual, params))
+        if not any((table_of(f, x) or ('', ''))[0] == 'params' for x in walk_no_nested(f.node)):
+            raise UnknownIdiom('%s does not read the parameter table' % f.qual)
+        for label, table, present in _PRESENCE_CELLS:
+            env = {params[0]: UNK, params[1]: _PKEY, '$table': dict(table)}
+            try:
+                kind, val = _presence_run(f, f.node.body, env)
+                got = repr(val) if kind == 'return' else 'None (falls off the end)'
+                truth = bool(val) if kind == 'return' else False
+            except _PKeyError:
+                got, truth = 'KeyError', None
+            run.check(truth is present, 'has_param(name) is %s when the parameter is %s: presence is key membership in the parsed mapping, never '
+                      'the truthiness of the stored value' % (present, label), f, 'has_param [%s] -> %s' % (label, got), where=f.loc(),
+                      witness=['mapping %r, name %r: has_param returns %s' % (table, _PKEY, got)] if truth is not present else None,
+                      runtime_witness="?flag (keep_blank_qs_values): params == {'flag': ''} and get_param('flag') == '' but has_param('flag') is False")
+
+
 def check(run):
     run.assume('the pure-Python parse_query_string/decode are decided; the Cython twin (falcon/cyutil/uri.pyx) replaces them when importable and is not analysed')
     run.assume('E5 assumptions: str/bytes methods and in-range slices are total; UTF-8 encoding of text without lone surrogates is total; '
@@ -1638,3 +1880,4 @@ def check(run):
 
     run.rule('R14', _c12._safe(_c12.r2_error_mapping), 'the JSON handler maps every loads() failure to the malformed-media error the json getter converts (shared with C12 R2)', floor=9)
     run.rule('R15', r15_undecoded_shortcut, "parse_query_string stores a name / value undecoded only behind a guard that excludes both '%' and '+'", floor=1)
+    run.rule('R16', r16_presence_by_key, 'has_param decides presence by key membership in the parsed mapping, never by the truthiness of the stored value (evaluated on presence x stored-value cells)', floor=6)
